@@ -143,6 +143,126 @@ def register(GROUPS, c2g, incs, REPO, HERE, STRUCTS, Group):
         t, i = sl.emit_block([inner["inner"][2]], "psort_recurse", ["*ghosts"], P, params=("n", "lo", "hi", "dir"), want_params=["n", "lo", "hi", "dir"],
                              effects=("sc_psort_bitonic", "sc_merge_bitonic"), effect_skip_args={"sc_psort_bitonic": (0,), "sc_merge_bitonic": (0,)})
         g.add(t, i)
+
+        # ---- the local sort: the comparison wrappers handed to qsort / qsort_r and the place where one is chosen by `dir`.
+        # sc_sort.c has three variants selected by sc_config.h (GNU qsort_r, BSD qsort_r, plain qsort with the static pointer
+        # sc_compare); ALL THREE are translated on every run (three preprocessor configurations of the same working tree).
+        # The user's comparison function is the Gallina function `compar : Z -> Z -> Z` of the two element addresses; its result
+        # is an arbitrary integer (no -1/0/1 normalisation anywhere).
+        E = c2g.E
+
+        class CmpT(sl.SliceT):
+            def expr(self, n, env):
+                if n.get("kind") == "CallExpr" and len(n["inner"]) == 3:
+                    c = sl.strip(n["inner"][0])
+                    nm = None
+                    if c.get("kind") == "MemberExpr":
+                        nm = c.get("name")
+                    elif c.get("kind") == "DeclRefExpr" and c.get("referencedDecl", {}).get("kind") == "VarDecl":
+                        nm = c["referencedDecl"]["name"]
+                    if nm in ("compar", "sc_compare"):
+                        a, b = [self.expr(x, env) for x in n["inner"][1:]]
+                        if ("compar", "Z -> Z -> Z") not in self.extra:
+                            self.extra.append(("compar", "Z -> Z -> Z"))
+                        return E("compar %s %s" % (a.z(), b.z()))
+                return super().expr(n, env)
+
+        def with_cmpt(fun, *a, **kw):
+            orig = sl.SliceT
+            sl.SliceT = CmpT
+            try:
+                return fun(*a, **kw)
+            finally:
+                sl.SliceT = orig
+
+        base_cfg = open(os.path.join(tmp, "inc", "sc_config.h")).read()
+        if not re.search(r"^#define SC_HAVE_QSORT_R\b", base_cfg, re.M) or re.search(r"^#define SC_HAVE_BSD_QSORT_R\b", base_cfg, re.M):
+            raise c2g.Unsupported("configuration template is not the GNU qsort_r variant")
+        cfgs = {"gnu": base_cfg,
+                "bsd": base_cfg.replace("/* #undef SC_HAVE_BSD_QSORT_R */", "#define SC_HAVE_BSD_QSORT_R 1"),
+                "plain": re.sub(r"^#define SC_HAVE_QSORT_R\b.*$", "/* #undef SC_HAVE_QSORT_R */", base_cfg, flags=re.M)}
+        if cfgs["bsd"] == base_cfg or cfgs["plain"] == base_cfg:
+            raise c2g.Unsupported("cannot derive the BSD / plain-qsort configurations")
+        # role of the arguments of the comparison function as qsort / qsort_r calls it, and of the call's own arguments
+        CONV = {"gnu": ("qsort_r", ("e1", "e2", "thunk"), 3, 4), "bsd": ("qsort_r", ("thunk", "e1", "e2"), 4, 3), "plain": ("qsort", ("e1", "e2"), 3, None)}
+        for v in ("gnu", "bsd", "plain"):
+            d = os.path.join(tmp, "inc_" + v)
+            os.makedirs(d, exist_ok=True)
+            open(os.path.join(d, "sc_config.h"), "w").write(cfgs[v])
+            objs = c2g.clang_ast(f, "sc_", [d] + incs(tmp)[1:])
+            qname, roles, cpos, tpos = CONV[v]
+            FB = c2g.find_function(objs, "sc_psort_bitonic")
+            qs = sl.find_nodes(FB, lambda n: n.get("kind") == "CallExpr" and sl.callee_name(n) in ("qsort", "qsort_r"))
+            if len(qs) != 1 or sl.callee_name(qs[0]) != qname or len(qs[0]["inner"]) != 1 + len(roles) + 2:
+                raise c2g.Unsupported("sc_psort_bitonic (%s): local sort call is not one %s with %d arguments" % (v, qname, len(roles) + 2))
+            args = qs[0]["inner"][1:]
+            if tpos is not None and sl.strip(args[tpos]).get("referencedDecl", {}).get("name") != "pst":
+                raise c2g.Unsupported("sc_psort_bitonic (%s): the qsort_r argument is not pst" % v)
+            ch = sl.strip(args[cpos])
+            if ch.get("kind") != "ConditionalOperator":
+                raise c2g.Unsupported("sc_psort_bitonic (%s): comparison function is not chosen by `dir ? f : g`" % v)
+            branches = []
+            for bnode in ch["inner"][1:]:
+                r = sl.strip(bnode)
+                rd = r.get("referencedDecl", {}) if r.get("kind") == "DeclRefExpr" else {}
+                if rd.get("kind") == "VarDecl" and rd.get("name") == "sc_compare" and v == "plain":
+                    branches.append("compar e1 e2")       # the static pointer: the user's function itself (assignment checked below)
+                elif rd.get("kind") == "FunctionDecl":
+                    W = c2g.find_function(objs, rd["name"])
+                    wb = [c for c in W["inner"] if c.get("kind") == "CompoundStmt"][0]
+                    ps = [p_["name"] for p_ in W["inner"] if p_.get("kind") == "ParmVarDecl"]
+                    if len(ps) != len(roles):
+                        raise c2g.Unsupported("%s (%s): %d parameters" % (rd["name"], v, len(ps)))
+                    gname = "%s_%s" % (rd["name"], v)
+                    if gname not in [i_["name"] for i_ in g.infos]:
+                        t, i = with_cmpt(sl.emit_block, wb["inner"], gname, ["ret"], rd["name"], params=tuple(ps), ret="ret", want_params=ps)
+                        if i["params"][:1] != ["compar"]:
+                            raise c2g.Unsupported("%s (%s) does not call the user's comparison function" % (rd["name"], v))
+                        g.add(t, i)
+                    branches.append("%s compar %s" % (gname, " ".join(roles)))
+                else:
+                    raise c2g.Unsupported("sc_psort_bitonic (%s): branch of the comparator choice is %s" % (v, r.get("kind")))
+            T = sl.SliceT()
+            T.fname, T.gname, T.free_as_params, T.fun_params, T.params = P, "psort_local_cmp_" + v, True, [], ["dir"]
+            ce = T.expr(ch["inner"][0], {"dir": "dir"})
+            if T.params != ["dir"] or T.fun_params:
+                raise c2g.Unsupported("sc_psort_bitonic (%s): comparator choice depends on %s" % (v, T.params))
+            g.add("(* the comparison function qsort%s calls in sc_psort_bitonic, as a function of dir; e1 e2: the two elements qsort compares *)\n"
+                  "Definition psort_local_cmp_%s (compar : Z -> Z -> Z) (dir : Z) (e1 e2 thunk : Z) : Z :=\nif %s then %s else %s.\n"
+                  % ("_r" if tpos is not None else "", v, ce.b(), branches[0], branches[1]),
+                  dict(name="psort_local_cmp_" + v, cname=P, params=["compar", "dir", "e1", "e2", "thunk"], fuel=False))
+            # base, number and size of the elements handed to the local sort
+            b0 = sl.strip(args[0])
+            if b0.get("kind") != "BinaryOperator" or b0.get("opcode") != "+" or "my_base" not in \
+                    [m.get("name") for m in sl.find_nodes(b0["inner"][0], lambda m: m.get("kind") == "MemberExpr")]:
+                raise c2g.Unsupported("sc_psort_bitonic (%s): base of the local sort is not pst->my_base + .." % v)
+            t, i = sl.emit_expr(b0["inner"][1], "psort_local_start_" + v, P, params=("lo", "pst_my_lo", "pst_size"), want_params=["lo", "pst_my_lo", "pst_size"])
+            g.add(t, i)
+            t, i = sl.emit_expr(args[1], "psort_local_n_" + v, P, params=("n",), want_params=["n"])
+            g.add(t, i)
+            t, i = sl.emit_expr(args[2], "psort_local_size_" + v, P, params=("pst_size",), want_params=["pst_size"])
+            g.add(t, i)
+            # sc_psort: pst.compar (and the static pointer of the plain variant) IS the caller's function
+            FS = c2g.find_function(objs, "sc_psort")
+
+            def asg(pred):
+                return [sl.strip(n["inner"][1]) for n in sl.find_nodes(FS, lambda n: n.get("kind") == "BinaryOperator" and n.get("opcode") == "=" and pred(sl.strip(n["inner"][0])))]
+            a1 = asg(lambda l: l.get("kind") == "MemberExpr" and l.get("name") == "compar")
+            if len(a1) != 1 or a1[0].get("referencedDecl", {}).get("kind") != "ParmVarDecl" or a1[0]["referencedDecl"].get("name") != "compar":
+                raise c2g.Unsupported("sc_psort (%s): pst.compar is not assigned the parameter compar exactly once" % v)
+            a2 = asg(lambda l: l.get("kind") == "DeclRefExpr" and l["referencedDecl"].get("name") == "sc_compare")
+            if v == "plain":
+                if len(a2) != 2 or a2[0].get("referencedDecl", {}).get("kind") != "ParmVarDecl" or a2[0]["referencedDecl"].get("name") != "compar" \
+                        or a2[1].get("kind") == "DeclRefExpr":
+                    raise c2g.Unsupported("sc_psort (plain): sc_compare is not `= compar` before and `= NULL` after the sort")
+            # nobody else writes the comparison function
+            for fo in objs:
+                if fo.get("kind") == "FunctionDecl" and fo.get("name") != "sc_psort" and any(c.get("kind") == "CompoundStmt" for c in fo.get("inner", [])):
+                    w = sl.find_nodes(fo, lambda n: n.get("kind") == "BinaryOperator" and n.get("opcode", "").endswith("=") and n.get("opcode") not in ("==", "!=", "<=", ">=") and
+                                      ((sl.strip(n["inner"][0]).get("kind") == "MemberExpr" and sl.strip(n["inner"][0]).get("name") == "compar") or
+                                       sl.strip(n["inner"][0]).get("referencedDecl", {}).get("name") == "sc_compare"))
+                    if w:
+                        raise c2g.Unsupported("%s (%s) assigns the comparison function" % (fo.get("name"), v))
         return g, [f]
 
     GROUPS["PsortC05"] = gen_psort
